@@ -354,14 +354,15 @@ def configs(tier):
     add("lp4-slots-2cmds-act-pre-5phases", mode="slots", maxcmds=2, types=["ACT", "PRE"], phases=[0, 1, 3, 5, 7])
     add("lp4-slots-2cmds-rd-mrw-5phases", mode="slots", maxcmds=2, types=["RD", "MRW"], phases=[0, 2, 4, 6, 7], extended=True)
     if tier == "thorough":
+        # the pipeline holds two cycles of history, so a slot graph has about P^2 states and P^3 transitions for P cycle patterns: the
+        # alphabets below keep P near 130 (about 2.1M transitions each); each job also has a wall-clock cap (reported as CAPPED if hit)
         add("lp4-slots-2cmds-act-pre", mode="slots", maxcmds=2, types=["ACT", "PRE"])
         add("lp4-slots-2cmds-act-pre-extended", mode="slots", maxcmds=2, types=["ACT", "PRE"], extended=True)
         add("lp4-slots-2cmds-rd-mrw", mode="slots", maxcmds=2, types=["RD", "MRW"])
-        add("lp4-slots-2cmds-act-rd-pre", mode="slots", maxcmds=2, types=["ACT", "RD", "PRE"])
-        add("lp4-slots-2cmds-act-rd-pre-extended", mode="slots", maxcmds=2, types=["ACT", "RD", "PRE"], extended=True)
-        add("lp4-slots-2cmds-wr-ref-mpc-mrr", mode="slots", maxcmds=2, types=["WR", "REF", "MPC", "MRR"])
-        add("lp4-slots-3cmds-act-pre", mode="slots", maxcmds=3, types=["ACT", "PRE"], max_states=400_000)
-        add("lp4-slots-3cmds-act-pre-extended", mode="slots", maxcmds=3, types=["ACT", "PRE"], extended=True, max_states=400_000)
+        add("lp4-slots-2cmds-wr-ref", mode="slots", maxcmds=2, types=["WR", "REF"])
+        add("lp4-slots-2cmds-mpc-mrr-extended", mode="slots", maxcmds=2, types=["MPC", "MRR"], extended=True)
+        add("lp4-slots-3cmds-act-pre-6phases", mode="slots", maxcmds=3, types=["ACT", "PRE"], phases=[0, 1, 2, 4, 6, 7])
+        add("lp4-slots-3cmds-act-6phases-extended", mode="slots", maxcmds=3, types=["ACT"], phases=[0, 1, 3, 4, 5, 7], extended=True)
     return cs
 
 
@@ -370,6 +371,6 @@ def run(tier, seed, only=None):
     jobs = []
     for name, kw, ms, fac in configs(tier):
         if only and only not in name: continue
-        jobs.append((runner.mc_run, (PROP, "checks.c20", fac, kw), dict(name=name, tier=tier, seed=seed, max_states=ms)))
+        jobs.append((runner.mc_run, (PROP, "checks.c20", fac, kw), dict(name=name, tier=tier, seed=seed, max_states=ms, time_limit=(None if tier == "quick" else 1500))))
     res = runner.run_jobs(jobs)
     return runner.finish(PROP, tier, seed, "model_checking", res, t0, ASSUME, RULE, technique="explicit-state BFS of the elaborated adapter+pipeline netlist with an independent JEDEC pin-stream decoder")
